@@ -1,5 +1,639 @@
-/- Model for C19 (core Lean only, no Mathlib). -/
+/-
+Model for C19 (core Lean only, no Mathlib).
+
+Part (a)  `odc/geo/crs.py`: `_make_crs_key`, `_make_crs` + `_crs_cache`,
+          `_make_crs_transform_key`, `_make_crs_transform` + its cache, `CRS.__init__`,
+          `__eq__`, `__hash__`, `__getstate__/__setstate__`, `__dask_tokenize__`, `to_epsg`,
+          on top of a heap of pyproj objects with allocation, reference drop, garbage
+          collection and **id reuse** (the allocator's choice is part of the history).
+Part (b)  eq / hash / dask token / pickle of the value types, each written as the code
+          computes it, over Python scalars that remember how they print (`1`, `1.0`, `-0.0`,
+          `True` are told apart by tokens and pickles but not by `==`/`hash`).
+-/
 import OdcGeo.Model.IO
 namespace OdcGeo.C19
+
+/-! ## Part (a): CRS objects, construction cache, transformer cache -/
+
+/-- What pyproj tells about one `pyproj.CRS` object (its immutable attributes). -/
+structure PInfo where
+  /-- which coordinate system the object denotes: the class of pyproj `==` -/
+  sys : Nat
+  /-- `str(obj)` = `obj.srs`: the text the object was built from -/
+  srs : String
+  /-- `obj.to_wkt()`; pyproj hashes an object by this text -/
+  wkt : String
+  /-- `obj.to_epsg()` -/
+  epsg : Option Nat
+  deriving DecidableEq, Repr
+
+/-- pyproj as far as `crs.py` uses it (a parameter; the harness supplies the real table). -/
+structure World where
+  /-- `_CRS.from_user_input(text)` / `_CRS.from_dict(d)`; `none` = `CRSError` -/
+  fromText : String → Option PInfo
+  /-- `_CRS.from_epsg(n)` -/
+  fromEpsg : Nat → Option PInfo
+
+/-- The triple `(crs, crs_str, epsg)` returned by `_make_crs`, which is also exactly the
+state of a `CRS` instance (`_crs`, `_str`, `_epsg`).  `obj` is `id(_crs)`, `info` the
+attributes of that pyproj object.  `epsg = some 0` is `EPSG_UNSET`, `none` is `None`. -/
+structure CrsObj where
+  obj : Nat
+  info : PInfo
+  str : String
+  epsg : Option Nat
+  deriving DecidableEq, Repr
+
+/-- Keys of `_crs_cache` as produced by `_make_crs_key` (crs.py:43-54): a string, or the
+pyproj object itself (any `Hashable`). -/
+inductive Key where
+  | txt (s : String)
+  | obj (id : Nat) (p : PInfo)
+  deriving DecidableEq, Repr
+
+/-- `crs_spec.upper().startswith("EPSG:")` -/
+def isEpsgLike (s : String) : Bool := (s.toUpper).startsWith "EPSG:"
+
+/-- `_make_crs_key` on a `str` (crs.py:44-48). -/
+def keyOfStr (s : String) : String := if isEpsgLike s then s.toUpper else s
+
+/-- `_make_crs_key` on an `int` (crs.py:49-50). -/
+def keyOfInt (n : Nat) : String := s!"EPSG:{n}"
+
+/-- Equality of two cache keys **as the dict sees it** (same hash and `==`):
+strings by value; a pyproj object hashes as `hash(to_wkt())` and `==` converts the other
+side with `from_user_input`, so it equals another object with the same WKT and system
+and — this is the collision of finding F16 — the string that is its own WKT text. -/
+def keyEq (W : World) : Key → Key → Bool
+  | .txt a, .txt b => a == b
+  | .obj i p, .obj j q => i == j || (p.wkt == q.wkt && p.sys == q.sys)
+  | .obj _ p, .txt t => p.wkt == t && (W.fromText t).map (·.sys) == some p.sys
+  | .txt t, .obj _ p => p.wkt == t && (W.fromText t).map (·.sys) == some p.sys
+
+/-- Tail of `_make_crs` (crs.py:72-78): `crs_str = str(crs)`; EPSG-like strings are
+upper-cased and give the code; `int(...)` may raise `ValueError` (e.g. `EPSG:4326+5773`). -/
+def entryOf (id : Nat) (p : PInfo) (e0 : Nat) : Res CrsObj :=
+  let u := p.srs.toUpper
+  if u.startsWith "EPSG:" then
+    match ((u.drop 5).toString).toNat? with
+    | some n => .ok ⟨id, p, u, some n⟩
+    | none => .error .valueError
+  else .ok ⟨id, p, p.srs, some e0⟩
+
+/-- What the user passes to `CRS(...)` (crs.py:111-122). -/
+inductive Spec where
+  | int (n : Nat)            -- `CRS(4326)`
+  | str (s : String)         -- `CRS("epsg:4326")`, WKT, PROJJSON text, PROJ string
+  | pyproj (pv : Nat)        -- `CRS(pyproj_object)`; `pv` names a user-held pyproj object
+  | dict (d : String)        -- `CRS({...})` → `_make_crs(_CRS.from_dict(d))`; `d` names the dict
+  | crs (v : Nat)            -- `CRS(other_crs_object)`
+  deriving DecidableEq, Repr
+
+structure State where
+  /-- live pyproj objects: id ↦ attributes -/
+  heap : List (Nat × PInfo) := []
+  /-- ids released by the collector, available for reuse -/
+  free : List Nat := []
+  /-- ids ≥ `next` were never used -/
+  next : Nat := 0
+  /-- `_crs_cache` (crs.py:40): a plain dict, nothing is ever removed -/
+  cache : List (Key × CrsObj) := []
+  /-- cache of `_make_crs_transform` (crs.py:85): key `(id, id, always_xy)` ↦ the systems
+  the stored `Transformer` really converts between -/
+  tcache : List ((Nat × Nat × Bool) × (Nat × Nat)) := []
+  /-- `CRS` instances held by the program -/
+  vars : List (Nat × CrsObj) := []
+  /-- pyproj objects held by the program: name ↦ (id, attributes) -/
+  pvars : List (Nat × (Nat × PInfo)) := []
+  deriving Repr
+
+/-- One step of a history.  `pick` is the allocator's choice: reuse the `pick`-th freed id
+if there is one, otherwise a fresh id; quantifying over histories therefore quantifies
+over every possible id reuse. -/
+inductive Op where
+  | pnewText (pv : Nat) (t : String) (pick : Nat)   -- `pv = pyproj.CRS.from_user_input(t)`
+  | pnewEpsg (pv : Nat) (n : Nat) (pick : Nat)      -- `pv = pyproj.CRS.from_epsg(n)`
+  | mk (v : Nat) (spec : Spec) (pick : Nat)         -- `v = CRS(spec)`
+  | pickle (v : Nat) (src : Nat) (pick : Nat)       -- `v = pickle.loads(pickle.dumps(src))`
+  | drop (v : Nat)                                  -- `del v`
+  | pdrop (pv : Nat)
+  | gc                                              -- unreferenced pyproj objects are freed
+  | transformer (a b : Nat) (xy : Bool)             -- `a.transformer_to_crs(b, always_xy=xy)`
+  | epsg (v : Nat)                                  -- `v.epsg` (fills the lazy `_epsg`)
+  | eq (a b : Nat)                                  -- `a == b`
+  /-- NOT an operation of the code: drops the `k`-th entry of `_crs_cache`, which is what a
+  bounded / LRU cache would do.  Only used to show the pinning invariant is essential. -/
+  | evict (k : Nat)
+  deriving DecidableEq, Repr
+
+inductive Out where
+  | unit
+  | str (s : String)
+  | err (e : ErrKind)
+  | tr (src dst : Nat)
+  | epsg (e : Option Nat)
+  | bool (b : Bool)
+  deriving DecidableEq, Repr
+
+def assoc {β : Type} (k : Nat) : List (Nat × β) → Option β
+  | [] => none
+  | (k', v) :: t => if k' = k then some v else assoc k t
+
+def setVar {β : Type} (k : Nat) (v : β) (l : List (Nat × β)) : List (Nat × β) :=
+  (k, v) :: l.filter (fun e => e.1 != k)
+
+def delVar {β : Type} (k : Nat) (l : List (Nat × β)) : List (Nat × β) :=
+  l.filter (fun e => e.1 != k)
+
+/-- Allocate a pyproj object: CPython may hand out a previously freed address. -/
+def alloc (σ : State) (pick : Nat) (p : PInfo) : State × Nat :=
+  if pick < σ.free.length then
+    let id := σ.free.getD pick 0
+    ({ σ with free := σ.free.eraseIdx pick, heap := (id, p) :: σ.heap }, id)
+  else
+    ({ σ with next := σ.next + 1, heap := (σ.next, p) :: σ.heap }, σ.next)
+
+def keyObj? : Key → Option Nat
+  | .obj i _ => some i
+  | .txt _ => none
+
+/-- ids referenced from `_crs_cache` (values and object keys), `CRS` instances and
+user-held pyproj objects. -/
+def roots (σ : State) : List Nat :=
+  σ.cache.map (·.2.obj) ++ σ.cache.filterMap (fun e => keyObj? e.1)
+    ++ σ.vars.map (·.2.obj) ++ σ.pvars.map (·.2.1)
+
+/-- Free every pyproj object nothing refers to; its id becomes reusable. -/
+def collect (σ : State) : State :=
+  let r := roots σ
+  { σ with heap := σ.heap.filter (fun e => r.contains e.1),
+           free := (σ.heap.filter (fun e => !r.contains e.1)).map (·.1) ++ σ.free }
+
+/-- `cache[k]` of the `cachetools.cached` wrapper. -/
+def cacheFind (W : World) (k : Key) (c : List (Key × CrsObj)) : Option CrsObj :=
+  (c.find? (fun e => keyEq W e.1 k)).map (·.2)
+
+/-- `_make_crs(spec)` through `cachetools.cached(_crs_cache, key=_make_crs_key)` for a
+pyproj object that already exists (`crs = crs_spec`, crs.py:68-69). -/
+def makeFromObj (W : World) (σ : State) (id : Nat) (p : PInfo) : State × Res CrsObj :=
+  let k := Key.obj id p
+  match cacheFind W k σ.cache with
+  | some e => (σ, .ok e)
+  | none =>
+    match entryOf id p 0 with
+    | .ok e => ({ σ with cache := σ.cache ++ [(k, e)] }, .ok e)
+    | .error x => (σ, .error x)
+
+/-- `_make_crs` for `str` / `int` specs (crs.py:62-67): on a miss pyproj builds a new
+object; a `CRSError` (a `RuntimeError`) stores nothing. -/
+def makeFromText (W : World) (σ : State) (key : String) (parsed : Option PInfo) (e0 : Nat)
+    (pick : Nat) : State × Res CrsObj :=
+  let k := Key.txt key
+  match cacheFind W k σ.cache with
+  | some e => (σ, .ok e)
+  | none =>
+    match parsed with
+    | none => (σ, .error .runtimeError)
+    | some p =>
+      let (σ1, id) := alloc σ pick p
+      match entryOf id p e0 with
+      | .ok e => ({ σ1 with cache := σ1.cache ++ [(k, e)] }, .ok e)
+      | .error x => (σ1, .error x)
+
+/-- `CRS.__init__` (crs.py:100-122). -/
+def construct (W : World) (σ : State) (spec : Spec) (pick : Nat) : State × Res CrsObj :=
+  match spec with
+  | .int n => makeFromText W σ (keyOfInt n) (W.fromEpsg n) n pick
+  | .str s => makeFromText W σ (keyOfStr s) (W.fromText s) 0 pick
+  | .pyproj pv =>
+    match assoc pv σ.pvars with
+    | none => (σ, .error .valueError)
+    | some (id, p) => makeFromObj W σ id p
+  | .dict d =>
+    match W.fromText d with
+    | none => (σ, .error .runtimeError)
+    | some p =>
+      let (σ1, id) := alloc σ pick p
+      makeFromObj W σ1 id p
+  | .crs v =>
+    match assoc v σ.vars with
+    | none => (σ, .error .valueError)
+    | some c => (σ, .ok c)
+
+/-- Python truthiness of `_epsg` (`0` and `None` are falsy). -/
+def truthy : Option Nat → Bool
+  | some n => n != 0
+  | none => false
+
+/-- `CRS.__eq__` for two `CRS` instances (crs.py:252-268). -/
+def crsEq (a b : CrsObj) : Bool :=
+  if a.obj == b.obj then true                                   -- `self._crs is other._crs`
+  else if truthy a.epsg && truthy b.epsg then a.epsg == b.epsg  -- both `_epsg` truthy
+  else if a.str == b.str then true
+  else a.info.sys == b.info.sys                                 -- `self._crs == other._crs`
+
+/-- `hash(crs)` is `hash(self._str)` (crs.py:246-247) for any string hash `H`. -/
+def crsHash (H : String → Int) (a : CrsObj) : Int := H a.str
+
+/-- `__dask_tokenize__` (crs.py:338-339): `("odc.geo.crs.CRS", str(self))`. -/
+def crsToken (a : CrsObj) : String × String := ("odc.geo.crs.CRS", a.str)
+
+def step (W : World) (σ : State) : Op → State × Out
+  | .pnewText pv t pick =>
+    match W.fromText t with
+    | none => (σ, .err .runtimeError)
+    | some p => let (σ1, id) := alloc σ pick p
+                ({ σ1 with pvars := setVar pv (id, p) σ1.pvars }, .unit)
+  | .pnewEpsg pv n pick =>
+    match W.fromEpsg n with
+    | none => (σ, .err .runtimeError)
+    | some p => let (σ1, id) := alloc σ pick p
+                ({ σ1 with pvars := setVar pv (id, p) σ1.pvars }, .unit)
+  | .mk v spec pick =>
+    match construct W σ spec pick with
+    | (σ1, .ok c) => ({ σ1 with vars := setVar v c σ1.vars }, .str c.str)
+    | (σ1, .error e) => (σ1, .err e)
+  | .pickle v src pick =>
+    -- `__getstate__` keeps `_str` only; `__setstate__` calls `__init__(crs_str)` (crs.py:124-128)
+    match assoc src σ.vars with
+    | none => (σ, .err .valueError)
+    | some c =>
+      match construct W σ (.str c.str) pick with
+      | (σ1, .ok c') => ({ σ1 with vars := setVar v c' σ1.vars }, .str c'.str)
+      | (σ1, .error e) => (σ1, .err e)
+  | .drop v => ({ σ with vars := delVar v σ.vars }, .unit)
+  | .pdrop pv => ({ σ with pvars := delVar pv σ.pvars }, .unit)
+  | .gc => (collect σ, .unit)
+  | .transformer a b xy =>
+    match assoc a σ.vars, assoc b σ.vars with
+    | some ca, some cb =>
+      -- `_make_crs_transform_key` (crs.py:81-82): object identities
+      let k := (ca.obj, cb.obj, xy)
+      match (σ.tcache.find? (fun e => e.1 == k)).map (·.2) with
+      | some (s, d) => (σ, .tr s d)
+      | none =>
+        -- `Transformer.from_crs(from_crs, to_crs)` on the objects passed in
+        let r := (ca.info.sys, cb.info.sys)
+        ({ σ with tcache := σ.tcache ++ [(k, r)] }, .tr r.1 r.2)
+    | _, _ => (σ, .err .valueError)
+  | .epsg v =>
+    match assoc v σ.vars with
+    | none => (σ, .err .valueError)
+    | some c =>
+      -- `to_epsg` (crs.py:146-152): fill the lazy field of *this instance* only
+      if c.epsg == some 0 then
+        let c' := { c with epsg := c.info.epsg }
+        ({ σ with vars := setVar v c' σ.vars }, .epsg c'.epsg)
+      else (σ, .epsg c.epsg)
+  | .eq a b =>
+    match assoc a σ.vars, assoc b σ.vars with
+    | some ca, some cb => (σ, .bool (crsEq ca cb))
+    | _, _ => (σ, .err .valueError)
+  | .evict k => ({ σ with cache := σ.cache.eraseIdx k }, .unit)
+
+/-- Run a history from a given state, collecting the observations. -/
+def runFrom (W : World) : State → List Op → State × List Out
+  | σ, [] => (σ, [])
+  | σ, op :: ops =>
+    let (σ1, o) := step W σ op
+    let (σ2, os) := runFrom W σ1 ops
+    (σ2, o :: os)
+
+/-- A fresh interpreter. -/
+def run (W : World) (h : List Op) : State × List Out := runFrom W {} h
+
+/-- Histories made only of operations the library really has. -/
+def Op.real : Op → Bool
+  | .evict _ => false
+  | _ => true
+
+/-! ## Part (b): value types -/
+
+/-- How a Python scalar prints (what tokens and pickles see). -/
+inductive NumKind where
+  | bool | int | float
+  deriving DecidableEq, Repr
+
+/-- A Python number: `==` and `hash` look at `val` only; `repr`, hence dask tokens and
+pickles, also at the kind and the sign of a float zero. -/
+structure PyNum where
+  kind : NumKind
+  val : Rat
+  negz : Bool := false
+  deriving DecidableEq, Repr
+
+def PyNum.eq (a b : PyNum) : Bool := a.val == b.val
+
+def numsEq : List PyNum → List PyNum → Bool
+  | [], [] => true
+  | a :: as, b :: bs => a.eq b && numsEq as bs
+  | _, _ => false
+
+/-- Normalised dask token: `md5(str(tuple))` is modelled by the tuple itself (atoms are
+printed injectively by `repr`). -/
+inductive Atom where
+  | tag (s : String)                 -- type tag / class path
+  | txt (s : String)                 -- a `str`
+  | num (n : PyNum)                  -- `repr` of a scalar
+  | int (i : Int)                    -- a Python `int`
+  | iarr (xs : List Int)             -- int32 numpy array: bytes + dtype + shape
+  | farr (xs : List PyNum)           -- float64 N×2 numpy array
+  | ident (i : Nat)                  -- object identity
+  deriving DecidableEq, Repr
+
+abbrev Token := List Atom
+
+/-- What `hash()` is computed from (any hash function of these values). -/
+inductive HAtom where
+  | val (r : Rat)
+  | txt (s : String)
+  | none
+  | ident (i : Nat)
+  deriving DecidableEq, Repr
+
+/-- `self._crs == other._crs` for optional CRS (`None == None`; `None == crs` is `False`
+because `CRS(None)` raises inside `__eq__`). -/
+def optCrsEq : Option CrsObj → Option CrsObj → Bool
+  | none, none => true
+  | some a, some b => crsEq a b
+  | _, _ => false
+
+/-- `str(self.crs)` -/
+def optCrsStr : Option CrsObj → String
+  | none => "None"
+  | some c => c.str
+
+def optCrsHash : Option CrsObj → HAtom
+  | none => .none
+  | some c => .txt c.str
+
+/-- pickle of a `CRS` field: `None`, or the `_str` (crs.py:124-125). -/
+def optCrsPkl : Option CrsObj → Atom
+  | none => .tag "None"
+  | some c => .txt c.str
+
+/-! ### XY family (types.py:43-220).  `XY.__eq__` only asks `isinstance(other, XY)`. -/
+
+inductive XYCls where
+  | xy | resolution | index2d | shape2d
+  deriving DecidableEq, Repr
+
+def XYCls.name : XYCls → String
+  | .xy => "odc.geo.types.XY" | .resolution => "odc.geo.types.Resolution"
+  | .index2d => "odc.geo.types.Index2d" | .shape2d => "odc.geo.types.Shape2d"
+
+structure XYv where
+  cls : XYCls
+  x : PyNum
+  y : PyNum
+  deriving DecidableEq, Repr
+
+namespace XYv
+def eq (a b : XYv) : Bool := a.x.eq b.x && a.y.eq b.y          -- `self._xy == other._xy`
+/-- `hash(self._xy)`; `Shape2d` overrides `__eq__` (types.py:217) without `__hash__`, so Python
+makes it unhashable -/
+def hashKey (a : XYv) : Option (List HAtom) :=
+  if a.cls = .shape2d then none else some [.val a.x.val, .val a.y.val]
+/-- no `__dask_tokenize__`: dask hashes the pickle (class + slot `_xy`) -/
+def token (a : XYv) : Token := [.tag a.cls.name, .num a.x, .num a.y]
+def clone (a : XYv) : XYv := a
+end XYv
+
+/-! ### BoundingBox (geom.py:41-85) -/
+
+structure BBox where
+  crs : Option CrsObj
+  l : PyNum
+  b : PyNum
+  r : PyNum
+  t : PyNum
+  deriving DecidableEq, Repr
+
+namespace BBox
+def eq (a b : BBox) : Bool :=
+  optCrsEq a.crs b.crs && (a.l.eq b.l && a.b.eq b.b && a.r.eq b.r && a.t.eq b.t)
+def hashKey (a : BBox) : List HAtom :=
+  [optCrsHash a.crs, .val a.l.val, .val a.b.val, .val a.r.val, .val a.t.val]
+def token (a : BBox) : Token :=
+  [.tag "odc.geo.geom.BoundingBox", optCrsPkl a.crs, .num a.l, .num a.b, .num a.r, .num a.t]
+/-- pickle round trip: slots copied, the CRS goes through `CRS(_str)` giving `c'` -/
+def clone (a : BBox) (c' : Option CrsObj) : BBox := { a with crs := c' }
+end BBox
+
+/-! ### Geometry (geom.py:893-914): unhashable; pickles as `{"geom": json, "crs": crs}` -/
+
+structure Geom where
+  crs : Option CrsObj
+  gtype : String
+  layout : List Int         -- lengths of the parts / rings
+  coords : List PyNum       -- all coordinates, flattened (shapely stores doubles)
+  deriving DecidableEq, Repr
+
+namespace Geom
+def eq (a b : Geom) : Bool :=
+  optCrsEq a.crs b.crs && (a.gtype == b.gtype && a.layout == b.layout && numsEq a.coords b.coords)
+def token (a : Geom) : Token :=
+  [.tag "odc.geo.geom.Geometry", .txt a.gtype, .iarr a.layout, optCrsPkl a.crs] ++ a.coords.map .num
+def clone (a : Geom) (c' : Option CrsObj) : Geom := { a with crs := c' }
+end Geom
+
+/-! ### GeoBox (geobox.py:720-721, 867-875, 1094-1100).  `affine.Affine` stores doubles. -/
+
+structure GBox where
+  crs : Option CrsObj
+  ny : Int
+  nx : Int
+  aff : List PyNum     -- a b c d e f
+  deriving DecidableEq, Repr
+
+namespace GBox
+def eq (a b : GBox) : Bool :=
+  (a.nx == b.nx && a.ny == b.ny) && numsEq a.aff b.aff && optCrsEq a.crs b.crs
+/-- `hash((*self._shape, self._crs, self._affine))` -/
+def hashKey (a : GBox) : List HAtom :=
+  [.val a.ny, .val a.nx, optCrsHash a.crs] ++ a.aff.map (fun n => .val n.val)
+/-- `("odc.geo.geobox.GeoBox", str(self.crs), *self._shape.yx, *self._affine[:6])` -/
+def tokenTail (a : GBox) : Token := [.txt (optCrsStr a.crs), .int a.ny, .int a.nx] ++ a.aff.map .num
+def token (a : GBox) : Token := .tag "odc.geo.geobox.GeoBox" :: a.tokenTail
+def clone (a : GBox) (c' : Option CrsObj) : GBox := { a with crs := c' }
+end GBox
+
+/-! ### GCPMapping / GCPGeoBox (gcp.py:110-116, 170-171, 281-289, 311-317) -/
+
+structure GCPMap where
+  ident : Nat             -- which `GCPMapping` object (it has no `__eq__`: identity)
+  crs : Option CrsObj
+  wld : List PyNum
+  pix : List PyNum
+  deriving DecidableEq, Repr
+
+structure GCPBox where
+  ny : Int
+  nx : Int
+  aff : List PyNum
+  mapping : GCPMap
+  deriving DecidableEq, Repr
+
+namespace GCPBox
+/-- `self._shape == o.shape and self._mapping is o._mapping and self._affine == o._affine` -/
+def eq (a b : GCPBox) : Bool :=
+  (a.nx == b.nx && a.ny == b.ny) && a.mapping.ident == b.mapping.ident && numsEq a.aff b.aff
+/-- `hash((*self._shape, self._affine, self._crs, id(self._mapping)))` -/
+def hashKey (a : GCPBox) : List HAtom :=
+  [.val a.ny, .val a.nx, optCrsHash a.mapping.crs, .ident a.mapping.ident] ++ a.aff.map (fun n => .val n.val)
+def tokenTail (a : GCPBox) : Token :=
+  [.txt (optCrsStr a.mapping.crs), .farr a.mapping.wld, .farr a.mapping.pix, .int a.ny, .int a.nx]
+    ++ a.aff.map .num
+def token (a : GCPBox) : Token := .tag "odc.geo._gcp.GCPGeoBox" :: a.tokenTail
+/-- pickle round trip: the mapping is rebuilt as a **new object** `fresh` -/
+def clone (a : GCPBox) (fresh : Nat) (c' : Option CrsObj) : GCPBox :=
+  { a with mapping := { a.mapping with ident := fresh, crs := c' } }
+/-- `copy.copy`: shares the mapping object -/
+def copy (a : GCPBox) : GCPBox := a
+end GCPBox
+
+/-! ### Tiles (roi.py:117-231) -/
+
+structure Tiles where
+  baseY : Int
+  baseX : Int
+  tileY : Int
+  tileX : Int
+  ny : Int        -- `_shape`, computed by `__init__`
+  nx : Int
+  deriving DecidableEq, Repr
+
+/-- `int(math.ceil(float(N) / n))` (exact for |N| < 2^53) -/
+def ceilDiv (N n : Int) : Int := ((N : Rat) / (n : Rat)).ceil
+
+namespace Tiles
+/-- `Tiles.__init__` (roi.py:124-133); a zero tile side raises `ZeroDivisionError`. -/
+def mk' (baseY baseX tileY tileX : Int) : Res Tiles :=
+  if tileY = 0 ∨ tileX = 0 then .error .zeroDiv
+  else .ok ⟨baseY, baseX, tileY, tileX, ceilDiv baseY tileY, ceilDiv baseX tileX⟩
+def eq (a b : Tiles) : Bool :=
+  (a.baseX == b.baseX && a.baseY == b.baseY) && (a.tileX == b.tileX && a.tileY == b.tileY)
+/-- `__dask_tokenize__` after `fix: Tiles dask token includes the base shape` -/
+def tokenTail (a : Tiles) : Token :=
+  [.int a.ny, .int a.nx, .int a.tileY, .int a.tileX, .int a.baseY, .int a.baseX]
+def token (a : Tiles) : Token := .tag "odc.geo.roi.Tiles" :: a.tokenTail
+/-- the token as it was before the fix (finding F6): the base shape is missing -/
+def tokenLegacy (a : Tiles) : Token :=
+  [.tag "odc.geo.roi.Tiles", .int a.ny, .int a.nx, .int a.tileY, .int a.tileX]
+def clone (a : Tiles) : Tiles := a
+end Tiles
+
+/-! ### VariableSizedTiles (roi.py:234-327): int32 cumulative offsets -/
+
+def wrap32 (i : Int) : Int := (i + 2147483648) % 4294967296 - 2147483648
+
+/-- `np.asarray([0, *idx], dtype="int32").cumsum(dtype="int32")` -/
+def cumsum32 (acc : Int) : List Int → List Int
+  | [] => []
+  | c :: cs => let a := wrap32 (acc + wrap32 c); a :: cumsum32 a cs
+
+structure VTiles where
+  offY : List Int
+  offX : List Int
+  deriving DecidableEq, Repr
+
+namespace VTiles
+def mk' (chY chX : List Int) : VTiles := ⟨0 :: cumsum32 0 chY, 0 :: cumsum32 0 chX⟩
+/-- shapes equal and no element differs -/
+def eq (a b : VTiles) : Bool := a.offY == b.offY && a.offX == b.offX
+def tokenTail (a : VTiles) : Token := [.iarr a.offY, .iarr a.offX]
+def token (a : VTiles) : Token := .tag "odc.geo.roi.VariableSizedTiles" :: a.tokenTail
+def clone (a : VTiles) : VTiles := a
+end VTiles
+
+/-! ### GeoboxTiles (geobox.py:1302-1524) -/
+
+inductive AnyBox where
+  | lin (g : GBox)
+  | gcp (g : GCPBox)
+  deriving DecidableEq, Repr
+
+inductive AnyTiles where
+  | reg (t : Tiles)
+  | var (t : VTiles)
+  deriving DecidableEq, Repr
+
+def AnyBox.eq : AnyBox → AnyBox → Bool
+  | .lin a, .lin b => a.eq b
+  | .gcp a, .gcp b => a.eq b
+  | _, _ => false          -- `isinstance` checks in both `__eq__`s
+def AnyBox.tokenTail : AnyBox → Token
+  | .lin a => a.tokenTail
+  | .gcp a => a.tokenTail
+def AnyTiles.eq : AnyTiles → AnyTiles → Bool
+  | .reg a, .reg b => a.eq b
+  | .var a, .var b => a.eq b
+  | _, _ => false
+def AnyTiles.tokenTail : AnyTiles → Token
+  | .reg a => a.tokenTail
+  | .var a => a.tokenTail
+
+structure GBTiles where
+  gbox : AnyBox
+  tiles : AnyTiles
+  deriving DecidableEq, Repr
+
+namespace GBTiles
+/-- `self._tiles == value._tiles and self._gbox == value._gbox` -/
+def eq (a b : GBTiles) : Bool := a.tiles.eq b.tiles && a.gbox.eq b.gbox
+/-- `("odc.geo.geobox.GeoboxTiles", *gbox.token[1:], *tiles.token[1:])` -/
+def token (a : GBTiles) : Token :=
+  .tag "odc.geo.geobox.GeoboxTiles" :: (a.gbox.tokenTail ++ a.tiles.tokenTail)
+end GBTiles
+
+/-! ### Bin1D (math.py:579-616) and GridSpec (gridspec.py:47-88) -/
+
+structure Bin1D where
+  sz : PyNum
+  origin : PyNum
+  dir : Int
+  deriving DecidableEq, Repr
+
+namespace Bin1D
+def eq (a b : Bin1D) : Bool := a.sz.eq b.sz && a.origin.eq b.origin && a.dir == b.dir
+def tokenTail (a : Bin1D) : Token := [.num a.sz, .num a.origin, .int a.dir]
+def token (a : Bin1D) : Token := .tag "odc.geo.math.Bin1D" :: a.tokenTail
+def clone (a : Bin1D) : Bin1D := a
+end Bin1D
+
+structure GridSpec where
+  crs : CrsObj
+  ty : Int                 -- `_shape`
+  tx : Int
+  resx : PyNum             -- `resolution` (floats)
+  resy : PyNum
+  ox : PyNum               -- `origin`
+  oy : PyNum
+  ybin : Bin1D
+  xbin : Bin1D
+  deriving DecidableEq, Repr
+
+def absNum (a : PyNum) : Rat := if a.val < 0 then -a.val else a.val
+
+namespace GridSpec
+/-- `GridSpec.__init__` (gridspec.py:47-77): `tile_size = shape * |resolution|`,
+`Bin1D(tile_size, origin, ∓1)` asserts a positive size. -/
+def mk' (crs : CrsObj) (ty tx : Int) (resx resy ox oy : PyNum) (flipx flipy : Bool) : Res GridSpec :=
+  let szx : Rat := tx * absNum resx
+  let szy : Rat := ty * absNum resy
+  if szy ≤ 0 ∨ szx ≤ 0 then .error .assertion
+  else .ok ⟨crs, ty, tx, resx, resy, ox, oy,
+            ⟨⟨.float, szy, false⟩, oy, if flipy then -1 else 1⟩,
+            ⟨⟨.float, szx, false⟩, ox, if flipx then -1 else 1⟩⟩
+/-- `_shape`, `_ybin`, `_xbin`, `crs` — the resolution itself is not compared -/
+def eq (a b : GridSpec) : Bool :=
+  (a.tx == b.tx && a.ty == b.ty) && a.ybin.eq b.ybin && a.xbin.eq b.xbin && crsEq a.crs b.crs
+/-- no `__dask_tokenize__`: pickle of `__dict__` (`crs, _shape, resolution, tile_size,
+origin, _ybin, _xbin`; `tile_size` repeats the bin sizes) -/
+def token (a : GridSpec) : Token :=
+  [.tag "odc.geo.gridspec.GridSpec", .txt a.crs.str, .int a.ty, .int a.tx, .num a.resx, .num a.resy,
+   .num a.ox, .num a.oy] ++ a.ybin.tokenTail ++ a.xbin.tokenTail
+def clone (a : GridSpec) (c' : CrsObj) : GridSpec := { a with crs := c' }
+end GridSpec
 
 end OdcGeo.C19
